@@ -261,6 +261,10 @@ pub struct Instance {
     out_pos: usize,
     invoked_pos: usize,
     pub logging: bool,
+    /// per step of the last episode: number of runnable tasks at every moment with more than one
+    pub points: Vec<Vec<u8>>,
+    /// per step of the last episode: number of preemption points passed
+    pub syncs: Vec<u16>,
 }
 
 impl Instance {
@@ -272,6 +276,7 @@ impl Instance {
     pub fn new_with_readahead(logging: bool, readahead: &[u8]) -> Result<Instance, String> {
         sched::take_panics();
         sched::clear_select_queue();
+        sched::drop_parked();
         let rt = sched::new_runtime();
         let reader = PipeReader::default();
         let writer = PipeWriter::default();
@@ -314,11 +319,15 @@ impl Instance {
             out_pos,
             invoked_pos: 0,
             logging,
+            points: Vec::new(),
+            syncs: Vec::new(),
         })
     }
 
     fn quiesce(&mut self) {
-        self.rt.block_on(sched::quiesce());
+        // a task suspended at a preemption point continues now, behind whatever became runnable meanwhile
+        sched::release_parked();
+        self.rt.block_on(sched::quiesce_parkable());
     }
 }
 
@@ -340,6 +349,12 @@ pub struct Episode {
     pub ep: u64,
     pub steps: Vec<Step>,
     pub writer_modes: Vec<(u64, WMode)>,
+    /// run-queue deviation: during step `.0`, at the `.1`-th moment with several runnable tasks, poll the task at
+    /// queue position `.2` first (instead of the oldest)
+    pub pick: Option<(usize, u16, u8)>,
+    /// preemption: the task reaching preemption point `.1` of step `.0` (about to lock a mutex, send or receive on
+    /// a channel) is suspended there until the next step has taken effect
+    pub park: Option<(usize, u16)>,
 }
 
 impl Episode {
@@ -347,6 +362,8 @@ impl Episode {
         json!({
             "steps": self.steps.iter().map(|s| format!("{:?}", s)).collect::<Vec<_>>(),
             "writer_modes": self.writer_modes.iter().map(|m| format!("{:?}", m)).collect::<Vec<_>>(),
+            "run_queue_pick": self.pick.map(|p| format!("step {} moment {} position {}", p.0, p.1, p.2)),
+            "preemption": self.park.map(|p| format!("step {} preemption point {}", p.0, p.1)),
         })
     }
 }
@@ -363,7 +380,14 @@ pub fn run_episode(inst: &mut Instance, st: &Stream, e: &Episode) -> Vec<Violati
         }
     }
     let gated_base = inst.invoked_pos;
-    for s in &e.steps {
+    inst.points.clear();
+    inst.syncs.clear();
+    for (si, s) in e.steps.iter().enumerate() {
+        let park = e.park.filter(|p| p.0 == si).map(|p| p.1);
+        match e.pick {
+            Some((i, j, k)) if i == si => sched::begin_step(&[(j, k)], park),
+            _ => sched::begin_step(&[], park),
+        }
         match s {
             Step::Feed(a, b) => inst.reader.push(&st.bytes[*a..*b]),
             Step::Complete(k) => {
@@ -434,6 +458,46 @@ pub fn run_episode(inst: &mut Instance, st: &Stream, e: &Episode) -> Vec<Violati
             }
         }
         inst.quiesce();
+        let info = sched::end_step();
+        let pts = info.picks;
+        if e.pick.map(|p| p.0) == Some(si) || e.park.map(|p| p.0) == Some(si) {
+            if !info.script_hit {
+                vs.push(Violation {
+                    property: "C17",
+                    clause: "machinery",
+                    shape: "run-queue choice does not exist on replay".into(),
+                    detail: format!("{:?} {:?} points {:?} syncs {}", e.pick, e.park, pts, info.syncs),
+                });
+            }
+        }
+        inst.points.push(pts);
+        inst.syncs.push(info.syncs);
+    }
+    // a task still suspended continues; the completions it was waiting to ask for are granted
+    for _ in 0..8 {
+        if sched::parked() == 0 {
+            break;
+        }
+        sched::begin_step(&[], None);
+        inst.quiesce();
+        loop {
+            let tx = {
+                let mut c = inst.state.0.lock().unwrap();
+                if c.outstanding.is_empty() {
+                    None
+                } else {
+                    Some(c.outstanding.remove(0).1)
+                }
+            };
+            match tx {
+                Some(tx) => {
+                    let _ = tx.send(());
+                    inst.quiesce();
+                }
+                None => break,
+            }
+        }
+        sched::end_step();
     }
     sched::clear_select_queue();
     let panics = sched::take_panics();
@@ -448,7 +512,17 @@ pub fn run_episode(inst: &mut Instance, st: &Stream, e: &Episode) -> Vec<Violati
     // --- handlers invoked once per request, in stream order, with the sent params
     let invoked: Vec<(String, Value)> = inst.state.0.lock().unwrap().invoked[inst.invoked_pos..].to_vec();
     inst.invoked_pos += invoked.len();
-    if invoked != st.calls {
+    let same = if e.pick.is_some() || e.park.is_some() {
+        // handlers are tasks of their own: under another run-queue order they may start in another order
+        let mut a: Vec<String> = invoked.iter().map(|c| format!("{} {}", c.0, c.1)).collect();
+        let mut b: Vec<String> = st.calls.iter().map(|c| format!("{} {}", c.0, c.1)).collect();
+        a.sort();
+        b.sort();
+        a == b
+    } else {
+        invoked == st.calls
+    };
+    if !same {
         vs.push(Violation {
             property: "C17",
             clause: "decoded-once-in-order",
@@ -585,6 +659,8 @@ fn episode_cuts(st: &Stream, ep: u64, cuts: &[usize], order: &[usize]) -> Episod
         ep,
         steps,
         writer_modes: Vec::new(),
+                pick: None,
+                park: None,
     }
 }
 
@@ -623,6 +699,8 @@ fn interleavings(st: &Stream, ep: u64) -> Vec<Episode> {
                 ep,
                 steps: steps.clone(),
                 writer_modes: Vec::new(),
+                pick: None,
+                park: None,
             });
             return;
         }
@@ -672,7 +750,7 @@ fn run_set(name: &str, episodes: &mut dyn Iterator<Item = Episode>, logging: boo
         {
             use std::hash::{Hash, Hasher};
             let mut h = std::collections::hash_map::DefaultHasher::new();
-            format!("{:?}{:?}", e.steps, e.writer_modes).hash(&mut h);
+            format!("{:?}{:?}{:?}{:?}", e.steps, e.writer_modes, e.pick, e.park).hash(&mut h);
             outcomes.insert(h.finish());
         }
         let broken = logging && vs.iter().any(|v| v.clause != "machinery");
@@ -737,6 +815,8 @@ pub fn run(thorough: bool, _threads: usize, name: &'static str) -> JobResult {
     let st0 = stream(0);
     let n = st0.bytes.len();
     let orders = perms(4);
+    // episodes whose every single run-queue deviation is explored as well (E10)
+    let mut pick_bases: Vec<Episode> = Vec::new();
     // E1: every single cut point x every completion order (after everything was fed)
     {
         let mut eps: Vec<Episode> = Vec::new();
@@ -804,7 +884,12 @@ pub fn run(thorough: bool, _threads: usize, name: &'static str) -> JobResult {
                 ep,
                 steps,
                 writer_modes: Vec::new(),
+                pick: None,
+                park: None,
             });
+        }
+        if !logging {
+            pick_bases.extend(eps.iter().cloned());
         }
         run_set("E4 all interleavings of message feeds and completions", &mut eps.into_iter(), logging, &mut shared, &mut result, &mut outcomes);
     }
@@ -884,10 +969,58 @@ pub fn run(thorough: bool, _threads: usize, name: &'static str) -> JobResult {
                     ep,
                     steps,
                     writer_modes: Vec::new(),
+                pick: None,
+                park: None,
                 });
             }
         }
+        if !logging {
+            pick_bases.extend(eps.iter().cloned());
+        }
         run_set("E8 output pipe blocked from some step until the end", &mut eps.into_iter(), logging, &mut shared, &mut result, &mut outcomes);
+    }
+    // E10: the plugin runs on a multi-threaded runtime, so whenever several of its tasks (driver, handlers, writers)
+    // are runnable any of them may go first: every single departure from first-in-first-out, at every such moment
+    // of every E4 / E8 episode
+    if !logging {
+        let mut variants: Vec<Episode> = Vec::new();
+        let mut moments = 0u64;
+        let mut preemption_points = 0u64;
+        for b in &pick_bases {
+            let mut inst = match Instance::new(false) {
+                Ok(i) => i,
+                Err(e) => {
+                    result.error = Some(e);
+                    return result;
+                }
+            };
+            let _ = run_episode(&mut inst, &st0, b);
+            for (si, pts) in inst.points.iter().enumerate() {
+                for (j, nrun) in pts.iter().enumerate() {
+                    moments += 1;
+                    for k in 1..*nrun {
+                        let mut v = b.clone();
+                        v.pick = Some((si, j as u16, k));
+                        variants.push(v);
+                    }
+                }
+            }
+            for (si, n) in inst.syncs.iter().enumerate() {
+                for p in 0..*n {
+                    preemption_points += 1;
+                    let mut v = b.clone();
+                    v.park = Some((si, p));
+                    variants.push(v);
+                }
+            }
+        }
+        result.extra.insert("E10 moments with several runnable tasks".into(), json!(moments));
+        result.extra.insert("E10 preemption points".into(), json!(preemption_points));
+        result.extra.insert("run_queue_pick_points".into(), json!(moments));
+        result.extra.insert("preemption_points".into(), json!(preemption_points));
+        result.extra.insert("run_queue_alternatives".into(), json!(variants.iter().filter(|v| v.pick.is_some()).count()));
+        result.extra.insert("preemption_alternatives".into(), json!(variants.iter().filter(|v| v.park.is_some()).count()));
+        run_set("E10 every single run-queue deviation and preemption in E4 and E8 episodes", &mut variants.into_iter(), logging, &mut shared, &mut result, &mut outcomes);
     }
     // E9: the chunk that carries the end of `init` also carries the first k bytes of the next message(s)
     if !logging {
@@ -910,7 +1043,7 @@ pub fn run(thorough: bool, _threads: usize, name: &'static str) -> JobResult {
                     steps.push(Step::Complete(*c));
                 }
                 steps.push(Step::CompleteAll);
-                let e = Episode { ep: 0, steps, writer_modes: Vec::new() };
+                let e = Episode { ep: 0, steps, writer_modes: Vec::new(), pick: None, park: None };
                 let vs = run_episode(&mut inst, &st0, &e);
                 n9 += 1;
                 result.runs += 1;
@@ -948,7 +1081,7 @@ pub fn run(thorough: bool, _threads: usize, name: &'static str) -> JobResult {
     result.states = outcomes.len() as u64;
     result.distinct_outcomes = outcomes.len() as u64;
     result.rule = Some(format!(
-        "engine F{}: real cln_plugin Builder/driver/codec over in-memory pipes; node stream = handshake + 5 messages ({} bytes: two hook calls, two method calls with string ids one of whose handler returns an error, one notification; multi-byte characters, escaped and literal single newlines, one pretty-printed body); enumerated (per-set episode counts are in `extra`; with logging on the pair/triple cut sets are skipped): every single cut point x all 24 completion orders of the four gated calls (one of which fails), every pair of cut points, the all-single-bytes partition, every interleaving of message-sized feeds with handler completions, short/pending writes at each of the first 12 poll_write calls, select! start-branch deviations at every step, the node not draining the output pipe from any step until the end, the first k bytes after `init` arriving in the same chunk as `init`{}; oracle: handlers invoked once per request in order with the sent params, output = complete JSON documents each followed by exactly one blank line, reply ids = request ids, replies echo their own request, nothing for notifications",
+        "engine F{}: real cln_plugin Builder/driver/codec over in-memory pipes; node stream = handshake + 5 messages ({} bytes: two hook calls, two method calls with string ids one of whose handler returns an error, one notification; multi-byte characters, escaped and literal single newlines, one pretty-printed body); enumerated (per-set episode counts are in `extra`; with logging on the pair/triple cut sets are skipped): every single cut point x all 24 completion orders of the four gated calls (one of which fails), every pair of cut points, the all-single-bytes partition, every interleaving of message-sized feeds with handler completions, short/pending writes at each of the first 12 poll_write calls, select! start-branch deviations at every step, the node not draining the output pipe from any step until the end, the first k bytes after `init` arriving in the same chunk as `init`, every single run-queue deviation (a younger runnable task polled before the oldest) and every single preemption (a task suspended right before a mutex lock / channel send / channel receive until the next step has taken effect) at every such moment of every E4/E8 episode{}; oracle: handlers invoked once per request in order (as a multiset under a run-queue deviation) with the sent params, output = complete JSON documents each followed by exactly one blank line, reply ids = request ids, replies echo their own request, nothing for notifications",
         if logging { " (logging on, one long-lived instance, episodes from the idle state)" } else { "" },
         n,
         if thorough { ", every triple of cut points among the interesting offsets (separators, multi-byte characters, escapes)" } else { "" }
